@@ -32,12 +32,12 @@ type TypedName struct {
 
 // PredDef is a non-recursive spec function, expanded at use.
 type PredDef struct {
-	Name    string
-	Params  []TypedName
-	Body    ast.Expr
-	Pkg     string
-	File    string
-	Line    int
+	Name     string
+	Params   []TypedName
+	Body     ast.Expr
+	Pkg      string
+	File     string
+	Line     int
 	Abstract bool
 	Opaque   bool // uninterpreted unless the function under verification reveals it
 }
@@ -55,37 +55,37 @@ type GhostUpdate struct {
 }
 
 type HintAt struct {
-	Where string // e.g. "call 1 of ParseQualifier", "return 3", "loop 1 head"
+	Where  string // e.g. "call 1 of ParseQualifier", "return 3", "loop 1 head"
 	Clause Clause
 }
 
 // Contract is the specification of one function.
 type Contract struct {
-	Key      string // (*T).M, T.M, F, F$1
-	Pkg      string // package path ("" for extern: Key carries the package)
-	Extern   bool
-	Params   []string
-	Results  []string
-	Logical  []TypedName
-	Requires []Clause
-	Ensures  []Clause
-	When     []Clause // applicability guard of external contracts
-	Loops    map[int]*LoopContract
-	Modifies []ModSpec
-	HasModifies bool
-	Pure     bool
-	Asserts  []HintAt
-	Ghosts   []GhostUpdate
-	File     string
-	Line     int
-	Uses     map[string]string // call-site instantiations of callee logical variables: "callee.var" -> expr text
-	Trusted  bool              // body is not verified (assumed contract on /repo code); listed in evidence
-	Acquires []string
-	Raw      []string
-	FrameTags []string
-	GhostWrites []string
+	Key           string // (*T).M, T.M, F, F$1
+	Pkg           string // package path ("" for extern: Key carries the package)
+	Extern        bool
+	Params        []string
+	Results       []string
+	Logical       []TypedName
+	Requires      []Clause
+	Ensures       []Clause
+	When          []Clause // applicability guard of external contracts
+	Loops         map[int]*LoopContract
+	Modifies      []ModSpec
+	HasModifies   bool
+	Pure          bool
+	Asserts       []HintAt
+	Ghosts        []GhostUpdate
+	File          string
+	Line          int
+	Uses          map[string]string // call-site instantiations of callee logical variables: "callee.var" -> expr text
+	Trusted       bool              // body is not verified (assumed contract on /repo code); listed in evidence
+	Acquires      []string
+	Raw           []string
+	FrameTags     []string
+	GhostWrites   []string
 	Deterministic bool
-	Reveals  []string
+	Reveals       []string
 }
 
 type ContractSet struct {
@@ -120,15 +120,15 @@ type GuardDecl struct {
 }
 
 type Lemma struct {
-	Name    string
-	Params  []TypedName
+	Name     string
+	Params   []TypedName
 	Requires []Clause
-	Ensures []Clause
-	Induct  string
-	Hints   []Clause
-	Pkg     string
-	File    string
-	Line    int
+	Ensures  []Clause
+	Induct   string
+	Hints    []Clause
+	Pkg      string
+	File     string
+	Line     int
 }
 
 func newContractSet() *ContractSet {
